@@ -82,7 +82,7 @@ def run_case(job):
     positions = [100, 400, 700, 900][:nmasters] if nmasters > 2 else [400, 700]
     if i % 2 == 0:  # registered width-style values are fractional (62.5, 87.5, 112.5)
         positions = [62.5, 87.5, 100, 112.5][:nmasters] if nmasters > 2 else [87.5, 112.5]
-    names = ["m%d" % k for k in range(nmasters)]
+    names = ["thin", "regular", "bold", "black"][:nmasters] if nmasters > 2 else ["regular", "bold"]  # config order is not name order
     upem = rng.choice([1000, 1024])
     res = dict(case=i, masters=nmasters, positions=positions, default=positions[default_idx], sources=[d[0] for d in docs])
     with scratch_dir("verif-c18-") as d:
